@@ -367,6 +367,13 @@ func (hash *SexpHash) HashSet(key Sexp, val Sexp) error {
 		if err != KeyNotSymbol {
 			return err
 		}
+		// an instance of a declared struct only has its declared
+		// fields, and those are named by symbols.
+		if f := hash.GoStructFactory; f != nil && f.UserStructDefn != nil &&
+			hash.TypeName != "hash" && hash.TypeName != "field" {
+			return fmt.Errorf("%s has no field '%s': field names are symbols",
+				f.UserStructDefn.Name, key.SexpString(nil))
+		}
 	}
 
 	hashval, err := HashExpression(nil, key)
